@@ -60,6 +60,9 @@ CLAIMS = {
  "C20": ("structural necessary conditions: every fixed-offset access in the license parsers is covered by a dominating length test; Parse strips exactly the dispatched two-character suffix; sibling agreement of the three DecryptKey (32-byte refusal before decode, decode error returned, key = decoded prefix) and EncryptKey (RawURLEncoding of 24 bytes); V1 writer/reader byte-range table and version suffixes; the base64 table accepts exactly the URL-safe alphabet and unknown bytes are an error; cipher bijectivity is not decided",
          "trusts go/ssa; encoding/base64",
          "static analysis: constant-bounds vs dominating length-test rule, sibling cross-check, offset tables, store-set analysis of the decode table"),
+ "C16": ("table agreement with MQTT 3.1.1 (tables transcribed from the standard inside the checker): per packet type the field layout extracted from the encoder equals the decoder's and the standard's, optional fields exactly under their flags, type codes consistent across writeHeader/Type()/dispatch, empty packets; known-bits provenance of the CONNECT flags byte and the fixed-header byte on both sides; remaining-length algorithm transcription and encodeLength on every writeHeader path; big-endian u16 and length-prefixed strings; byte values at the length boundaries as such are not decided",
+         "the transcribed tables; go/ssa; QoS fields are 2 bits wide (property precondition)",
+         "static analysis: codec layout extraction vs independent spec table, known-bits abstract interpretation, algorithm transcription check, must-pass-through"),
 }
 
 NOT_YET = "no sound structural rule implemented yet in this static-analysis framework (see DESIGN.md §4 for the clauses planned); behavioural clauses quantify over runtime values"
